@@ -356,10 +356,99 @@ class IntegralOrchestration(Task):
                 ctx.oblige(f"post.covering-mask-of-this-box{tag}", okm, "P")
 
 
+class MaskedLevelU(FragmentTask):
+    """volume_integral, the body of the loop over the masked levels for ONE level with ANY number of boxes (unbounded: two loop
+    invariants).  Task construction: after k boxes the task list holds, for every j < k, box j's own file and offset, the
+    components, the level's cell volume and the covering mask of box j.  Summation: after k results the integral is what it was
+    plus the sum of the first k workers' results.  Hence every box of the level contributes exactly once, with its own mask."""
+    prop = "C09"
+    reach = "U"
+    qual = PE + "volume_integral"
+    first = staticmethod(lambda s: isinstance(s, ast.Assign) and ast.unparse(s).startswith("mp_calls = []"))
+
+    @staticmethod
+    def last(s):
+        return isinstance(s, ast.For) and "increment_sum_masked" in ast.unparse(s.iter)
+
+    def __init__(self):
+        self.name = "volume_integral.masked-level-body[any number of boxes]"
+
+    def setup(self, ex):
+        from pyvc.loops import LoopSpec
+        from pyvc.exec import loop_nodes
+        ctx = ex.ctx
+        R = z3.RealSort()
+        nb, lv = z3.Int("nboxes"), z3.Int("lv")
+        ctx.assume(z3.And(nb >= 0, lv >= 0))
+        FILE, OFF = z3.Function("FILE", I, I), z3.Function("OFF", I, I)
+        MASK = z3.Function("MASK", I, I, I, I, z3.BoolSort())
+        WF = z3.Function("WORKER_RESULT", I, I, R)           # a function of what the task reads: (file, offset)
+        PS = z3.Function("PARTIAL_SUM", I, R)
+        q = z3.Int("q")
+        ctx.assume(PS(0) == 0)
+        ctx.assume(z3.ForAll([q], z3.Implies(q >= 0, PS(q + 1) == PS(q) + WF(FILE(q), OFF(q))), patterns=[PS(q + 1)]))
+        msh = [z3.Int(f"m{d}") for d in range(3)]
+        mask = lambda j: NDArray(list(msh), lambda ix, j=j: MASK(to_z3(j), *[to_z3(i) for i in ix]), "bool")
+        dxs = [z3.Real(f"dx{d}") for d in range(3)]
+        dV = ctx.define("prod", dxs[0] * dxs[1] * dxs[2]) if hasattr(ctx, "define") else dxs[0] * dxs[1] * dxs[2]
+        idv, idi = z3.Int("id_vol"), z3.Int("id_int")
+        INT0 = z3.Real("integral_before")
+
+        def task(j):
+            return {"file": FILE(to_z3(j)), "offset": OFF(to_z3(j)), "id_vol": idv, "id_int": idi, "covering_mask": mask(j), "dV": None}
+        self.task = task
+        pck = Record("amr_kitchen.plotfile_cooker.PlotfileCooker",
+                     boxes=SymSeq(lv + 1, lambda l: SymSeq(nb, lambda j: Opaque("box", "obj"))),
+                     cells=SymSeq(lv + 1, lambda l: {"files": SymSeq(nb, lambda j: FILE(to_z3(j))), "offsets": SymSeq(nb, lambda j: OFF(to_z3(j)))}),
+                     dx=SymSeq(lv + 1, lambda l: Vec(list(dxs), "array")))
+        masks = SymSeq(lv + 1, lambda l: SymSeq(nb, lambda j: mask(j)))
+
+        def worker(ex_, args, kw):
+            a = args[0]
+            return WF(to_z3(a.get("file")), to_z3(a.get("offset")))
+        self.contracts = {PE + "increment_sum_masked": worker}
+        pool = Record("Pool")
+        pool.held = True
+        fdef = ex.repo.func(self.qual)[0]
+        loops = list(loop_nodes(fdef))
+        build = [i for i, n in enumerate(loops) if isinstance(n, ast.For) and "covering_mask" in ast.unparse(n) and "mp_calls.append" in ast.unparse(n)
+                 and "zip(" in ast.unparse(n.iter)]
+        summ = [i for i, n in enumerate(loops) if self.last(n)]
+        if len(build) != 1 or len(summ) != 1:
+            raise Unsupported("the task-construction / summation loops of the masked levels are not in this function (restructured code)")
+        holder = {}
+
+        def t_build(ex_, fr, k, entry):
+            k3 = to_z3(k)
+            dvv = fr.vars.get("dV")
+            holder["dV"] = dvv
+            return {"mp_calls": SymSeq(k3, lambda j: dict(task(j), dV=dvv)), "__assume__": [z3.And(k3 >= 0, k3 <= nb)],
+                    "__assert__": [("in-range", k3 <= nb)]}
+
+        def t_sum(ex_, fr, k, entry):
+            return {"integral": INT0 + PS(to_z3(k))}
+        self.loopspecs = {(self.qual, build[0]): LoopSpec(t_build), (self.qual, summ[0]): LoopSpec(t_sum)}
+        frame = {"pck": pck, "lv": lv, "covering_masks": masks, "id_vol": idv, "id_int": idi, "integral": INT0, "pool": pool}
+        return {"frame": frame, "nb": nb, "PS": PS, "INT0": INT0, "dxs": dxs, "holder": holder}
+
+    def post(self, ex, inp, out):
+        ctx = ex.ctx
+        ctx.oblige("raises-nothing", out.kind == "ret", "P", note=str(out.exc) if out.kind != "ret" else "")
+        if out.kind != "ret":
+            return
+        v = out.value
+        ctx.oblige("post.integral-grew-by-the-sum-of-every-box-once", to_z3(v["integral"]) == inp["INT0"] + inp["PS"](inp["nb"]), "P")
+        dvv = v.get("dV")
+        d = inp["dxs"]
+        ctx.oblige("post.cell-volume-of-the-level", veq(ctx, dvv, d[0] * d[1] * d[2]), "P")
+        ctx.oblige("post.one-task-per-box-with-its-own-file-offset-and-mask",
+                   veq(ctx, v["mp_calls"], SymSeq(inp["nb"], lambda j: dict(self.task(j), dV=dvv))), "P")
+
+
 def parent_tasks(tier):
     gs = (2, 4, 8) if tier == "quick" else (2, 4, 6, 8, 16, 32)
     return [CoveringMask(g) for g in gs] + [OccupancyMap(g) for g in ((4,) if tier == "quick" else (2, 4, 8))] + [MapResolution()] + \
-        [IntegralOrchestration(None, False), IntegralOrchestration(1, True), IntegralOrchestration(2, True), IntegralOrchestration(0, False)]
+        [MaskedLevelU(), IntegralOrchestration(None, False), IntegralOrchestration(1, True), IntegralOrchestration(2, True), IntegralOrchestration(0, False)]
 
 
 def parent_canaries():
